@@ -89,6 +89,9 @@ func cmdGenny(o *Out, line string, f []string) {
 			if a.start != cs(first) || a.end != cs(a.samples[len(a.samples)-1][0]) {
 				o.violation(line, "GetGennyTime does not report the ceiling seconds of the first and last time stamps",
 					map[string]int64{"start": a.start, "end": a.end, "first_ms": first, "last_ms": last})
+				// a wrong span is not fed into TranslateGenny (a start of 0 would ask for a sample per second since 1970)
+				o.emit(line, "gennytime-wrong")
+				return
 			}
 		}
 		times = append(times, fmt.Sprintf("%d:%d", a.start, a.end))
